@@ -1212,6 +1212,33 @@ func genEngine(r *rng, n int, tier string, emit func(J)) {
 			reqs = append(reqs, create(g, k, "world", "alice", 50))
 			reqs = append(reqs, J{"kind": "setmeta", "phase": k + 1, "dry": false, "ik": "", "ref": "", "acct": "bob", "key": "k2", "val": "w"})
 			restartAfter = g.n(k + 1)
+		case 6: // independent writers: transactions with pairwise different sources (no lock conflict), all at once — their commits
+			// overlap in the batcher (an entry is still waiting for the store when the next one is committed)
+			k := 2 + g.n(2)
+			perm := []string{"alice", "bob", "carol"}
+			for i := len(perm) - 1; i > 0; i-- {
+				j := g.n(i + 1)
+				perm[i], perm[j] = perm[j], perm[i]
+			}
+			for i := 0; i < k; i++ {
+				if g.p(25) { // the revert of a funding transaction: its source is the funded account
+					t := 0
+					for ti, a := range accts {
+						if a == perm[i] {
+							t = ti
+						}
+					}
+					reqs = append(reqs, J{"kind": "revert", "phase": 0, "dry": false, "ik": "", "ref": "", "target": t, "force": true})
+				} else {
+					reqs = append(reqs, create(g, 0, perm[i], "dave", 10+10*g.n(4)))
+				}
+			}
+			if g.p(50) {
+				reqs = append(reqs, create(g, 1, perm[0], "dave", 10))
+			}
+			if c%16 == 6 {
+				dfs = 300
+			}
 		default: // a random mix
 			nReq := 2 + g.n(3)
 			if tier == "thorough" {
